@@ -277,7 +277,12 @@ pub fn gen_message_text(sim: &Sim) -> String {
     };
     let mut s = String::new();
     for _ in 0..n {
-        s.push_str(sim.pick(POOL));
+        if sim.chance(1, 4) {
+            // any single ASCII character (every member of the percent-encoding set and its complement)
+            s.push(sim.range(0, 0x7f) as u8 as char);
+        } else {
+            s.push_str(sim.pick(POOL));
+        }
     }
     s
 }
